@@ -197,12 +197,25 @@ def run(ctx, idx):
     for n in own_nodes(pp.node):
         if isinstance(n, ast.Assign) and len(n.targets) == 1 and isinstance(n.targets[0], ast.Name) and isinstance(n.value, ast.Call) and K.is_super_call(n.value, "clean"):
             names.add(n.targets[0].id)
+    # copies of the value and the names the joined path is stored under
+    changed = True
+    while changed:
+        changed = False
+        for n in own_nodes(pp.node):
+            if isinstance(n, ast.Assign) and len(n.targets) == 1 and isinstance(n.targets[0], ast.Name) and n.targets[0].id not in names:
+                if (isinstance(n.value, ast.Name) and n.value.id in names) or any(j.ast is n.value for j in joins):
+                    names.add(n.targets[0].id)
+                    changed = True
+
+    def xsrc(e):
+        return K.src(K.expand(pp, e)) if not (isinstance(e, ast.Name) and e.id in names) else K.src(e)
+
     for j in joins:
         a = j.ast.args
-        if len(a) == 2 and K.src(a[0]).endswith(".working_dir") and isinstance(a[1], ast.Name) and a[1].id in names:
+        if len(a) == 2 and xsrc(a[0]).endswith(".working_dir") and isinstance(a[1], ast.Name) and a[1].id in names:
             ok = True
             why = "join(working_dir, value), directory first"
-        elif len(a) == 2 and K.src(a[1]).endswith(".working_dir"):
+        elif len(a) == 2 and xsrc(a[1]).endswith(".working_dir"):
             why = "os.path.join(value, working_dir): the arguments are swapped"
     rz = [n for n in c.find("raise") if (n.meta.get("qual") or "").endswith("InvalidRelativePath")]
     if ok and not rz:
@@ -211,7 +224,7 @@ def run(ctx, idx):
     if ok:
         t = [t for t in c.find("test") if any(c.dominates(t, r) for r in rz)]
         isabs = [t for t in t if "isabs" in t.text()]
-        wd = [t for t in t if "working_dir" in t.text()]
+        wd = [t for t in t if "working_dir" in xsrc(t.ast)]
         if not isabs or not wd:
             ok = False
             why = "InvalidRelativePath is not raised exactly for a relative path with no working directory"
